@@ -391,3 +391,151 @@ Fixpoint ref_main_tr (n fuel : nat) (r : rst) : option (list rst) :=
          end
   end.
 End Traces.
+
+(* ------------------------------------------------------------------------------------------ *)
+(* ADDRESSES, independently of ex_region: an address string is cut into tokens (tok_addr: only the walking over the
+   bytes -- digits, the delimiter-terminated pattern, the separators -- follows the C code) and the tokens are given a
+   meaning on the reference state (spec_region).  ExAddr.region_spec: ref_region loc r = spec_region (tok_addr loc) r. *)
+Inductive abase :=
+| BCur                                   (* "." or nothing *)
+| BLast                                  (* "$" *)
+| BMark (c : N)                          (* 'c *)
+| BPat (delim : N) (pat : option bytes)  (* /pat/ or ?pat?; an empty pattern reuses the remembered one AND its direction *)
+| BNum (n : Z).                          (* 1-based line number *)
+Record aterm := mkterm { t_base : abase; t_offs : list Z }.     (* base, then +n / -n offsets *)
+Inductive addr :=
+| APercent                                       (* "%" : the whole buffer *)
+| AEmpty                                         (* no address: the current line *)
+| ATerms (l : list (aterm * option bool)).       (* terms, each followed by ";" (Some true), "," (Some false) or the end *)
+
+Fixpoint tok_offs (fuel : nat) (num : bytes) : list Z * bytes :=
+  match fuel with
+  | O => ([], num)
+  | S f =>
+    match num with
+    | c :: rest => if ((c =? 45) || (c =? 43))%N then let '(l, r) := tok_offs f (skip_digits rest) in (atoi num :: l, r) else ([], num)
+    | [] => ([], num)
+    end
+  end.
+
+Definition tok_term (loc : bytes) : aterm * bytes :=
+  let fin := fun (b : abase) (rest : bytes) => let '(l, r) := tok_offs (S (length rest)) rest in (mkterm b l, r) in
+  match loc with
+  | [] => fin BCur []
+  | c :: rest =>
+    if (c =? 46)%N then fin BCur rest
+    else if (c =? 36)%N then fin BLast rest
+    else if (c =? 39)%N then fin (BMark (hd0 rest)) (tl rest)
+    else if ((c =? 47) || (c =? 63))%N then let '(kw, rest') := re_read loc in fin (BPat c kw) rest'
+    else if isdigit c then fin (BNum (fst (digits loc 0))) (skip_digits loc)
+    else fin BCur loc
+  end.
+
+Fixpoint tok_terms (fuel : nat) (loc : bytes) : list (aterm * option bool) :=
+  match fuel with
+  | O => []
+  | S f =>
+    match loc with
+    | [] => []
+    | _ =>
+      let '(t, rest) := tok_term loc in
+      match skip_to_sep rest with            (* anything between the term and the next separator is skipped *)
+      | [] => [(t, None)]
+      | c :: rest' => (t, Some (c =? 59)%N) :: tok_terms f rest'
+      end
+    end
+  end.
+
+Definition tok_addr (loc : bytes) : addr :=
+  if bytes_eqb loc [37%N] then APercent
+  else match loc with [] => AEmpty | _ => ATerms (tok_terms (S (length loc)) loc) end.
+
+Fixpoint first_match (m : bytes -> bool) (l : list bytes) : option nat :=
+  match l with
+  | [] => None
+  | x :: l' => if m x then Some O else option_map S (first_match m l')
+  end.
+
+Section AddrSem.
+Variable rvalid : bytes -> bool.
+Variable rfind : bytes -> bytes -> bool -> option (nat * nat).
+
+Definition matches (pat x : bytes) : bool := match rfind pat x false with Some _ => true | None => false end.
+
+(* a direction other than +1 / -1 is never stored by the editor; for completeness: step by dir until a match or the edge *)
+Fixpoint gen_search (fuel : nat) (texts : list bytes) (pat : bytes) (row dir : Z) : option Z :=
+  match fuel with
+  | O => None
+  | S f =>
+    if (row <? 0) || (Z.of_nat (length texts) <=? row) then None
+    else match nth_error texts (Z.to_nat row) with
+         | Some x => if matches pat x then Some row else gen_search f texts pat (row + dir) dir
+         | None => None
+         end
+  end.
+
+(* the nearest matching line strictly after (dir = 1) / before (dir = -1) the current line; no wrap-around; a search that
+   would start outside the buffer fails *)
+Definition spec_search (texts : list bytes) (pat : bytes) (cur dir : Z) : option Z :=
+  let start := cur + dir in
+  if (start <? 0) || (Z.of_nat (length texts) <=? start) then None
+  else if dir =? 1 then option_map (fun k => start + Z.of_nat k) (first_match (matches pat) (skipn (Z.to_nat start) texts))
+  else if dir =? -1 then option_map (fun k => start - Z.of_nat k) (first_match (matches pat) (rev (firstn (S (Z.to_nat start)) texts)))
+  else gen_search (S (length texts)) texts pat start dir.
+
+Definition r_jump (r : rst) (c : N) : option Z :=
+  match markidx c with
+  | Some k => let row := nth k (r_marks r) (-1) in if row <? 0 then None else Some row
+  | None => None
+  end.
+
+(* 0-based row of a base, None = it does not designate a line (unset mark, failed search) *)
+Definition sem_base (b : abase) (r : rst) : option Z * rst :=
+  match b with
+  | BCur => (Some (r_cur r), r)
+  | BLast => (Some (r_len r - 1), r)
+  | BMark c => (r_jump r c, r)
+  | BNum n => (Some (n - 1), r)
+  | BPat d kw =>
+    let r1 := match kw with Some (c :: p) => r_addr r (r_cur r) (c :: p) (if (d =? 47)%N then 1 else -1) | _ => r end in
+    if r_kwddir r1 =? 0 then (None, r1)
+    else if negb (rvalid (r_kwd r1)) then (None, r1)
+    else (spec_search (r_txt r1) (r_kwd r1) (r_cur r1) (r_kwddir r1), r1)
+  end.
+
+Definition sem_term (t : aterm) (r : rst) : option Z * rst :=
+  let '(o, r1) := sem_base (t_base t) r in
+  (match o with Some n => Some (fold_left Z.add (t_offs t) n) | None => None end, r1).
+
+(* a term gives the END of the range (exclusive: its row + 1) and, if it is the first one, the beginning too; a later term
+   moves the end and makes the previous end (inclusive) the beginning; ";" makes the term's line the current line;
+   a term that designates no line, or a line before "line 0", rejects the address *)
+Fixpoint sem_terms (l : list (aterm * option bool)) (first : bool) (b e : Z) (r : rst) : bool * Z * Z * rst :=
+  match l with
+  | [] => (false, b, e, r)
+  | (t, sep) :: l' =>
+    let '(o, r1) := sem_term t r in
+    let n := match o with Some n => n | None => -2 end in
+    let e1 := n + 1 in
+    let b1 := if first then e1 - 1 else e - 1 in
+    if e1 <? 0 then (true, b1, e1, r1)
+    else match sep with
+         | None => (false, b1, e1, r1)
+         | Some semi => sem_terms l' false b1 e1 (if semi then r_cur_set r1 (e1 - 1) else r1)
+         end
+  end.
+
+Definition spec_region (a : addr) (r : rst) : bool * Z * Z * rst :=
+  match a with
+  | APercent => (false, 0, Z.max 0 (r_len r), r)
+  | AEmpty => ((r_cur r <? 0) || (r_len r <? r_cur r), r_cur r, (if r_cur r =? r_len r then r_cur r else r_cur r + 1), r)
+  | ATerms l =>
+    let '(bad, b, e, r1) := sem_terms l true 0 0 r in
+    if bad then (true, b, e, r1)
+    else
+      let b := if (b <? 0) && (e =? 0) then 0 else b in       (* address 0: before the first line *)
+      if (b <? 0) || (r_len r1 <=? b) then (true, b, e, r1)
+      else if (e <? b) || (r_len r1 <? e) then (true, b, e, r1)
+      else (false, b, e, r1)
+  end.
+End AddrSem.
